@@ -7,4 +7,3 @@ INVARIANT C07_NaN_eq_Unconnected_DC
 INVARIANT C07_TopoModule_eq_Spec
 INVARIANT C07_DeadElementsZero
 INVARIANT C07_LiveBusesFinite
-INVARIANT C07_SolvedWhenRef
